@@ -368,6 +368,8 @@ fn io_key<const N: usize>(b: &B<N>, cal: &Cal) -> Vec<u8> {
     for s in 0..N {
         match rank_of_slot.get(&s) {
             Some(r) => k.extend([1, *r as u8]),
+            // beyond the core capacities garbage is ignored in the key (justified by C04, as for `layout` keys)
+            None if N > 8 => k.extend([0, 0]),
             None => {
                 let x = unsafe { std::ptr::read_volatile(p.add(cal.items_off + s)) };
                 match live.iter().position(|l| *l == x) {
